@@ -12,9 +12,10 @@ from .ty import SB, SI, SS, ArraySpecT, MapSpecT, SArraySpec
 
 # ---- _get_common_dim (assumed; nested def + starred unpacking of a generator are outside the engine's subset) ------------
 def _dim_along(S, x, index, shapes, r):
-    """Every position of x that carries `index` has size r."""
-    return S.forall(0, S.len(x.axes), lambda q: S.implies(
-        S.and_(S.not_(S.is_none(x.axes[q])), lambda: S.eq(S.some(x.axes[q]), index)), lambda: shapes[x.name][q] == r))
+    """Every position of x that carries `index` has size r (named spec predicate)."""
+    return S.opaque("spec:dim_along", [x, index, shapes, r], lambda x_, ix_, sh_, r_: S.forall(
+        0, S.len(x_.axes), lambda q: S.implies(
+            S.and_(S.not_(S.is_none(x_.axes[q])), lambda: S.eq(S.some(x_.axes[q]), ix_)), lambda: sh_[x_.name][q] == r_)))
 
 
 def _gcd_wellformed(S, a):
@@ -66,8 +67,7 @@ def _idx(S, a, p):
 
 
 def _mapped(S, a, p):
-    ins = a.self.inputs
-    return S.exists(0, S.len(ins), lambda i: _has_axis(S, ins[i], _idx(S, a, p)))
+    return _some_input_has(S, a.self, _idx(S, a, p))
 
 
 def _internal(S, a):
